@@ -135,18 +135,22 @@ def r10_2(ctx):
                 if s == "ABSENCE" and not zero:
                     ctx.violation(construct(g, "absent-contributes"), g.loc(), f"{cls}.get_work_amount_skill_progress returns `{ret!r}` for a resource in state ABSENCE (must be 0)")
         h = ctx.repo.method(cls, "check_update_state_from_absence_time_list")
-        for step, absent in ((3, True), (2, False)):
+        # (own absence list, step): sorted, unsorted (the list is whatever the user wrote), empty
+        for lst, step in (([3], 3), ([3], 2), ([6, 2], 6), ([6, 2], 2), ([6, 2], 4), ([], 0), ([0], 0)):
+            absent = step in lst
             for held in (False, True):
                 I = mk_interp(ctx)
-                heap = {("self", "absence_time_list"): ListV([Poly.const(3)]), ("self", "assigned_task_list"): ListV([Obj("T", TASK)] if held else [])}
+                heap = {("self", "absence_time_list"): ListV([Poly.const(x) for x in lst]), ("self", "assigned_task_list"): ListV([Obj("T", TASK)] if held else [])}
                 outs = I.run_function(h, bind={"step_time": Poly.const(step)}, heap=heap)
                 for st, ex in outs:
                     v = st.heap.get(("self", "state"))
                     got = v.single() if isinstance(v, EnumSet) else None
+                    if ex is not None and ex[0] == "raise":
+                        got = "an exception"
                     exp = "ABSENCE" if absent else ("WORKING" if held else "FREE")
-                    ctx.instance(construct(h, f"absent={absent},holds={held}"), sample={"state": got})
+                    ctx.instance(construct(h, f"list={lst},step={step},holds={held}"), sample={"state": got})
                     if got != exp:
-                        ctx.violation(construct(h, "state-table"), h.loc(), f"{cls}: step {'in' if absent else 'not in'} own absence list, {'holds' if held else 'holds no'} task => state {got} (expected {exp})")
+                        ctx.violation(construct(h, "state-table"), h.loc(), f"{cls}: own absence list {lst}, step {step} ({'in' if absent else 'not in'} the list), {'holds' if held else 'holds no'} task => state {got} (expected {exp})")
     ctx.end()
 
 
